@@ -190,7 +190,8 @@ func c16noHeartbeats(rep *vh.Report) {
 type srcTuple struct {
 	ch        int
 	sys, comp byte
-	autopilot byte
+	autopilot byte // autopilot type of its heartbeats
+	first     byte // autopilot type of its very first heartbeat (a sender may announce another type first)
 }
 
 func c16streamRequests(rep *vh.Report, seed uint64, idx int) {
@@ -235,6 +236,15 @@ func c16streamRequests(rep *vh.Report, seed uint64, idx int) {
 	seen := map[srcTuple]bool{}
 	for len(tuples) < nT {
 		t := srcTuple{ch: r.Intn(k), sys: byte(1 + r.Intn(250)), comp: byte(1 + r.Intn(250)), autopilot: []byte{3, 3, 3, 0, 12, 8}[r.Intn(6)]}
+		t.first = t.autopilot
+		if t.autopilot == 3 && r.Chance(1, 4) {
+			t.first = 12 // the same sender first shows up with another autopilot type: its first ArduPilot heartbeat comes later
+		}
+		if len(tuples) > 0 && r.Chance(1, 4) {
+			// the same (system, component) as an earlier sender, on another channel: senders are per channel
+			o := tuples[r.Intn(len(tuples))]
+			t.sys, t.comp = o.sys, o.comp
+		}
 		key := srcTuple{ch: t.ch, sys: t.sys, comp: t.comp}
 		if seen[key] {
 			continue
@@ -261,8 +271,12 @@ func c16streamRequests(rep *vh.Report, seed uint64, idx int) {
 	}
 	for round := 0; round < 3; round++ {
 		for _, t := range tuples {
-			cur[t.ch] = append(cur[t.ch], hbFrame(t.sys, t.comp, t.autopilot, uint32(round))...)
-			if round == 0 && expectReqEarly && t.autopilot == 3 {
+			ap := t.autopilot
+			if round == 0 {
+				ap = t.first
+			}
+			cur[t.ch] = append(cur[t.ch], hbFrame(t.sys, t.comp, ap, uint32(round))...)
+			if expectReqEarly && t.autopilot == 3 && ((round == 0 && t.first == 3) || (round == 1 && t.first != 3)) {
 				cum[t.ch] += 7
 			}
 			if r.Chance(1, 2) {
